@@ -13,7 +13,11 @@ package dkg
 import (
 	"context"
 	"encoding/hex"
+	"encoding/json"
 	"fmt"
+	"math/rand"
+	"os"
+	"path"
 	"runtime"
 	"sort"
 	"strings"
@@ -24,12 +28,21 @@ import (
 	"github.com/coinbase/kryptology/pkg/dkg/frost"
 	"github.com/coinbase/kryptology/pkg/sharing"
 	"go.uber.org/zap"
+	"golang.org/x/sync/errgroup"
 	"google.golang.org/protobuf/proto"
 
+	"github.com/obolnetwork/charon/app/k1util"
 	"github.com/obolnetwork/charon/app/log"
+	"github.com/obolnetwork/charon/cluster"
 	pb "github.com/obolnetwork/charon/dkg/dkgpb/v1"
 	"github.com/obolnetwork/charon/dkg/share"
+	dkgsync "github.com/obolnetwork/charon/dkg/sync"
+	"github.com/obolnetwork/charon/eth2util/keystore"
+	"github.com/obolnetwork/charon/p2p"
 	"github.com/obolnetwork/charon/tbls"
+	"github.com/obolnetwork/charon/tbls/tblsconv"
+	"github.com/obolnetwork/charon/testutil"
+	"github.com/obolnetwork/charon/testutil/relay"
 	"github.com/obolnetwork/charon/zzverif/enumx"
 )
 
@@ -45,6 +58,12 @@ type c11Case struct {
 	Order2 []int  `json:"order2"`
 	MapRot int    `json:"maprot"` // map iteration rotation pinned during the ceremony (runtime overlay); -1 = stock random order
 	Family string `json:"family"`
+	// AllSubsets: for n>=7 check every size-t / size-(t-1) subset instead of the n cyclic windows
+	// (n<=6 always checks every subset).
+	AllSubsets bool `json:"all_subsets,omitempty"`
+	// Full: the whole dkg.Run (libp2p on loopback, lock files and keystores on disk) instead of
+	// runFrostParallel over the harness transport; the orders are not controlled then.
+	Full bool `json:"full_dkg,omitempty"`
 }
 
 func (c c11Case) cfg() string { return fmt.Sprintf("n=%d,t=%d,v=%d", c.N, c.T, c.V) }
@@ -258,6 +277,9 @@ const c11PeerFailed = "ceremony aborted because peer"
 var errC11Watchdog = fmt.Errorf("harness watchdog: ceremony did not finish")
 
 func c11Ceremony(c c11Case) c11Outcome {
+	if c.Full {
+		return c11FullDKG(c)
+	}
 	tp, err := c11NewTransport(c)
 	if err != nil {
 		return c11Outcome{harness: err}
@@ -310,14 +332,14 @@ type c11viol struct{ sig, desc string }
 
 var c11Msg = []byte("C11 fixed 32-byte signing root....")[:32]
 
-// c11Subsets returns the size-k subsets of share indices 1..n that are checked: all of them for n<=6,
-// the n cyclic windows (which include "first k" and "last k") for n>=7.
-func c11Subsets(n, k int) [][]int {
+// c11Subsets returns the size-k subsets of share indices 1..n that are checked: all of them for n<=6 (or
+// when all is set), the n cyclic windows (which include "first k" and "last k") for n>=7.
+func c11Subsets(n, k int, all bool) [][]int {
 	if k < 1 || k > n {
 		return nil
 	}
 	var out [][]int
-	if n <= 6 {
+	if n <= 6 || all {
 		var rec func(start int, cur []int)
 		rec = func(start int, cur []int) {
 			if len(cur) == k {
@@ -444,7 +466,7 @@ func c11Judge(c c11Case, shares [][]share.Share, cnt map[string]int) (viol []c11
 			return err == nil && tbls.Verify(gk, c11Msg, agg) == nil
 		}
 		// any t public shares reconstruct the group key; any t secret shares sign validly under it
-		for _, sub := range c11Subsets(n, c.T) {
+		for _, sub := range c11Subsets(n, c.T, c.AllSubsets) {
 			if !recovers(sub) {
 				bad("kind=public-shares-do-not-recover-group-key", "validator %d: public shares %v do not recover the group key %s", k, sub, c11hex(gk))
 			}
@@ -454,7 +476,7 @@ func c11Judge(c c11Case, shares [][]share.Share, cnt map[string]int) (viol []c11
 			cnt["subsets_of_size_t_checked"]++
 		}
 		// threshold t: t-1 shares do not
-		for _, sub := range c11Subsets(n, c.T-1) {
+		for _, sub := range c11Subsets(n, c.T-1, c.AllSubsets) {
 			if recovers(sub) {
 				bad("kind=group-key-recovered-below-threshold", "validator %d: only %d public shares %v recover the group key (threshold %d)", k, len(sub), sub, c.T)
 			}
@@ -499,6 +521,149 @@ func c11Fresh(c c11Case) (viol []c11viol, ok bool, why string) {
 		viol = append(viol, c11Indep(c, out.shares, seen, cnt)...)
 	}
 	return viol, true, ""
+}
+
+// ---- thorough-tier extension: the whole dkg.Run ----------------------------------------------------------
+
+var c11T *testing.T
+
+// c11FullDKG runs the complete dkg.Run of every node in-process the way dkg_test.go does (real libp2p on
+// loopback through a local relay, data directories in a temp dir) and returns what every node wrote to
+// disk (lock file, keystores) in the shape of the ceremony output. Everything that goes wrong here is a
+// harness/environment problem (ports, timing), never a violation; it is retried.
+func c11FullDKG(c c11Case) c11Outcome {
+	if c11T == nil {
+		return c11Outcome{harness: fmt.Errorf("no testing.T")}
+	}
+	var last error
+	for attempt := 0; attempt < 3; attempt++ {
+		var out c11Outcome
+		done := false
+		c11T.Run(fmt.Sprintf("fulldkg-n%d-t%d-v%d-try%d", c.N, c.T, c.V, attempt), func(t *testing.T) {
+			out = c11FullOnce(t, c)
+			done = true
+		})
+		switch {
+		case done && out.harness == nil:
+			return out
+		case done:
+			last = out.harness
+		default:
+			last = fmt.Errorf("a test fixture aborted the run (bind error or relay start-up)")
+		}
+	}
+	return c11Outcome{harness: fmt.Errorf("full dkg.Run did not complete in 3 attempts: %v", last)}
+}
+
+func c11FullOnce(t *testing.T, c c11Case) c11Outcome {
+	fail := func(f string, a ...any) c11Outcome { return c11Outcome{harness: fmt.Errorf(f, a...)} }
+	lock, keys, _ := cluster.NewForT(t, c.V, c.T, c.N, 1, rand.New(rand.NewSource(1)), func(d *cluster.Definition) {
+		d.DKGAlgorithm = "frost"
+		d.TargetGasLimit = 30000000
+	})
+	def := lock.Definition
+	if err := def.VerifySignatures(nil); err != nil {
+		return fail("definition fixture: %v", err)
+	}
+	b, err := json.Marshal(def)
+	if err != nil {
+		return fail("definition fixture: %v", err)
+	}
+	var defClone cluster.Definition
+	if err := json.Unmarshal(b, &defClone); err != nil {
+		return fail("definition fixture: %v", err)
+	}
+	dir := t.TempDir()
+	ctx, cancel := context.WithCancel(log.WithLogger(context.Background(), zap.NewNop()))
+	defer cancel()
+	relayAddr := relay.StartRelay(ctx, t)
+	conf := Config{
+		P2P: p2p.Config{Relays: []string{relayAddr}},
+		Log: log.DefaultConfig(),
+		TestConfig: TestConfig{
+			Def: &defClone,
+			StoreKeysFunc: func(secrets []tbls.PrivateKey, dir string) error {
+				return keystore.StoreKeysInsecure(secrets, dir, keystore.ConfirmInsecureKeys)
+			},
+			SyncOpts: []func(*dkgsync.Client){dkgsync.WithPeriod(50 * time.Millisecond)},
+		},
+		ShutdownDelay:  time.Second,
+		PublishTimeout: 30 * time.Second,
+		Timeout:        60 * time.Second,
+	}
+	var eg errgroup.Group
+	for i := 0; i < c.N; i++ {
+		conf := conf
+		conf.DataDir = path.Join(dir, fmt.Sprintf("node%d", i))
+		conf.P2P.TCPAddrs = []string{testutil.AvailableAddr(t).String()}
+		if err := os.MkdirAll(conf.DataDir, 0o755); err != nil {
+			return fail("data dir: %v", err)
+		}
+		if err := k1util.Save(keys[i], p2p.KeyPath(conf.DataDir)); err != nil {
+			return fail("p2p key: %v", err)
+		}
+		eg.Go(func() error {
+			err := Run(ctx, conf)
+			if err != nil {
+				cancel()
+			}
+			return err
+		})
+		if i == 0 {
+			time.Sleep(100 * time.Millisecond)
+		}
+	}
+	done := make(chan error, 1)
+	go func() { done <- eg.Wait() }()
+	select {
+	case err := <-done:
+		if err != nil {
+			return fail("dkg.Run returned an error: %v", err)
+		}
+	case <-time.After(5 * time.Minute):
+		cancel()
+		return fail("dkg.Run did not finish in 5 minutes")
+	}
+
+	out := c11Outcome{shares: make([][]share.Share, c.N), errs: make([]error, c.N)}
+	for i := 0; i < c.N; i++ {
+		dataDir := path.Join(dir, fmt.Sprintf("node%d", i))
+		keyFiles, err := keystore.LoadFilesUnordered(path.Join(dataDir, "validator_keys"))
+		if err != nil {
+			return fail("node %d keystores: %v", i, err)
+		}
+		secrets, err := keyFiles.SequencedKeys()
+		if err != nil {
+			return fail("node %d keystores: %v", i, err)
+		}
+		raw, err := os.ReadFile(path.Join(dataDir, "cluster-lock.json"))
+		if err != nil {
+			return fail("node %d lock: %v", i, err)
+		}
+		var lk cluster.Lock
+		if err := json.Unmarshal(raw, &lk); err != nil {
+			return fail("node %d lock: %v", i, err)
+		}
+		if len(secrets) != len(lk.Validators) {
+			return fail("node %d: %d keystores for %d validators in the lock", i, len(secrets), len(lk.Validators))
+		}
+		for k, val := range lk.Validators {
+			gk, err := tblsconv.PubkeyFromBytes(val.PubKey)
+			if err != nil {
+				return fail("node %d lock validator %d: %v", i, k, err)
+			}
+			ps := map[int]tbls.PublicKey{}
+			for j, psb := range val.PubShares {
+				pk, err := tblsconv.PubkeyFromBytes(psb)
+				if err != nil {
+					return fail("node %d lock validator %d share %d: %v", i, k, j+1, err)
+				}
+				ps[j+1] = pk
+			}
+			out.shares[i] = append(out.shares[i], share.Share{PubKey: gk, SecretShare: secrets[k], PublicShares: ps})
+		}
+	}
+	return out
 }
 
 // ---- enumeration -----------------------------------------------------------------------------------------
@@ -585,6 +750,7 @@ func c11Unit(n, t, v, half int) []c11Case {
 	for i := range cases {
 		cases[i].MapRot = [3]int{0, 1, -1}[i%3]
 	}
+	cases[0].AllSubsets = true // the subset relations do not depend on the order: every subset once per unit
 	return cases
 }
 
@@ -673,6 +839,7 @@ func (s *c11State) eval(c c11Case, seen map[tbls.PublicKey]string) {
 }
 
 func c11Replay(r *enumx.Run) {
+	c11T = r.TB
 	var c c11Case
 	if err := r.ReplayCase(&c); err != nil {
 		r.TB.Logf("cannot read replay: %v", err)
@@ -720,6 +887,20 @@ func TestVerifC11(t *testing.T) {
 		maxN, maxV = 8, 4
 	}
 	st := &c11State{r: r, confirmed: map[string]bool{}, attempts: map[string]int{}}
+	c11T = t
+	if enumx.Thorough() {
+		// Extension: the complete dkg.Run (two independent ceremonies each), same oracle on what the nodes
+		// wrote to disk.
+		for _, nt := range [][2]int{{3, 2}, {4, 3}} {
+			if !r.Mine() {
+				continue
+			}
+			seen := map[tbls.PublicKey]string{}
+			for rep := 0; rep < 2 && !r.Expired(); rep++ {
+				st.eval(c11Case{N: nt[0], T: nt[1], V: 2, MapRot: -1, Family: "full-dkg", Full: true}, seen)
+			}
+		}
+	}
 	// Work units (configuration x half of the order families), most expensive first and in snake order
 	// over the shards, so that round-robin sharding is balanced. The list is identical in every shard.
 	type unit struct{ n, t, v, half, cost int }
